@@ -182,9 +182,29 @@ def mutants(fn):
 
 
 total = hits = 0
+FA_REF = equiv.list_typed_attrs(list(trees.values()))   # list-typed attributes per class family (session 3)
+
+
+def family_attrs_with(node, cont, m):
+    """The evidence the real pipeline would use for this mutant: intersection over the reference tree and
+    the tree in which `m` replaces `node` (a mutant that rebinds self.<attr> can only remove evidence)."""
+    if not any(isinstance(x, ast.Attribute) and isinstance(x.ctx, (ast.Store, ast.Del)) for x in ast.walk(node)) and not any(
+            isinstance(x, ast.Attribute) and isinstance(x.ctx, (ast.Store, ast.Del)) for x in ast.walk(m)):
+        return FA_REF
+    i = cont.index(node)
+    cont[i] = m
+    try:
+        fb = equiv.list_typed_attrs(list(trees.values()))
+    finally:
+        cont[i] = node
+    return {c: (FA_REF[c][0] & fb[c][0], FA_REF[c][1] & fb[c][1]) for c in FA_REF if c in fb}
+
+
 for rel, tree in trees.items():
     for q, (node, cont, cls) in equiv._function_table(tree).items():
         try:
+            equiv._FAMILY_ATTRS.clear(); equiv._FAMILY_ATTRS.update(FA_REF)
+            equiv._set_family(cls)
             k0 = equiv.canon_key(node)
         except Exception as exc:
             print("canon failed", rel, q, exc)
@@ -192,6 +212,9 @@ for rel, tree in trees.items():
         for desc, m in mutants(node):
             total += 1
             try:
+                equiv._FAMILY_ATTRS.clear(); equiv._FAMILY_ATTRS.update(family_attrs_with(node, cont, m))
+                equiv._set_family(cls)
+                k0 = equiv.canon_key(node)
                 k1 = equiv.canon_key(m)
             except Exception as exc:
                 continue
